@@ -3,12 +3,16 @@ package verifchecks
 import (
 	"encoding/json"
 	"fmt"
+	"runtime"
 	"sort"
 	"strings"
+	"sync"
 	"testing"
+	"time"
 
 	"pgregory.net/rapid"
 
+	"github.com/mimiro-io/datahub/internal/verifhook"
 	kit "github.com/mimiro-io/datahub/internal/verifkit"
 )
 
@@ -274,4 +278,78 @@ func TestVerif_C19_concurrent(t *testing.T) {
 			}
 		})
 	})
+}
+
+// F33: DeleteDataset did not wait for a writer of the dataset. A batch that
+// has committed reads the dataset's meta-entity, adds to its items counter and
+// stores it (Dataset.updateDataset); when the dataset is deleted between that
+// read and that write, the meta-entity of the deleted dataset is live again.
+// Forced schedule: the lock trace shows the writer asking for core.Dataset's
+// lock from inside updateDataset - it has read the meta-entity by then; at that
+// instant DeleteDataset runs (in another goroutine, given 300 ms).
+func TestVerifProbe_F33(t *testing.T) {
+	defer kit.CleanupScratch()
+	h := NewWHub(kit.HubOpts{})
+	defer h.Close()
+	if _, err := h.Dsm.CreateDataset("s", nil); err != nil {
+		t.Fatalf("VERIF-INFRA create: %v", err)
+	}
+	var once sync.Once
+	deleted := make(chan error, 1)
+	verifhook.SetLockTracer(func(ev, kind, id string, gid int64) {
+		if ev != "acquire" || kind != "ds" || id != "core.Dataset" {
+			return
+		}
+		pcs := make([]uintptr, 48)
+		frames := runtime.CallersFrames(pcs[:runtime.Callers(2, pcs)])
+		inUpdate := false
+		for {
+			fr, more := frames.Next()
+			if strings.HasSuffix(fr.Function, ".updateDataset") {
+				inUpdate = true
+			}
+			if !more {
+				break
+			}
+		}
+		if !inUpdate {
+			return
+		}
+		once.Do(func() {
+			go func() { deleted <- h.Dsm.DeleteDataset("s") }()
+			select {
+			case err := <-deleted:
+				deleted <- err
+			case <-time.After(300 * time.Millisecond):
+			}
+		})
+	})
+	defer verifhook.SetLockTracer(nil)
+	p := h.P[0]
+	if err := h.StoreBatch("s", []*kit.Ent{ent(p+":e0", map[string]any{p + ":p0": "x"}, nil, false)}, "store"); err != nil {
+		t.Fatalf("VERIF-INFRA write: %v", err)
+	}
+	select {
+	case err := <-deleted:
+		if err != nil {
+			t.Fatalf("VERIF-INFRA delete: %v", err)
+		}
+	case <-time.After(10 * time.Second):
+		t.Fatalf("VERIF-INFRA DeleteDataset did not return")
+	}
+	verifhook.SetLockTracer(nil)
+	for _, n := range h.DatasetNames() {
+		if n == "s" {
+			t.Fatalf("F33 present: s is still listed after DeleteDataset returned")
+		}
+	}
+	metas, err := h.Latest("core.Dataset", nil)
+	if err != nil {
+		t.Fatalf("listing core.Dataset: %v", err)
+	}
+	for _, m := range metas {
+		if strings.HasSuffix(m.ID, ":s") && !m.Deleted {
+			t.Fatalf("F33 present: the dataset s was deleted while a batch was updating its items counter; its meta-entity is live again: %s", m.Key())
+		}
+	}
 }
